@@ -58,8 +58,11 @@ PLAN = {
             "thorough": [e2(9, 16), e1(200000, profiles=["prio_storm", "full_store", "hoarder"]), {"engine": "E1p", "params": {}, "cases": 160000},
                          {"engine": "E2p", "params": {}, "cases": 8736}]},
     "C06": {"quick": [e2(7, 4), e1(12000, kinds=ALL_KINDS, profiles=["hoarder", "mixed"]),
-                      e1(8000, kinds=["buffer_fifo", "buffer_lifo", "bufferstore_fifo", "bufferstore_lifo", "fleet", "filter", "rprs", "belt_acc", "slotbelt"], profiles=["cancel_storm"]), e5(4000), e3(2000, templates=["fanin", "multisink", "diamond", "line"])],
-            "thorough": [e2(9, 16), e1(240000, kinds=ALL_KINDS, profiles=["hoarder", "mixed", "cancel_storm"]), e5(40000), e3(20000)]},
+                      e1(8000, kinds=["buffer_fifo", "buffer_lifo", "bufferstore_fifo", "bufferstore_lifo", "fleet", "filter", "rprs", "belt_acc", "slotbelt"], profiles=["cancel_storm"]), e5(4000), e3(2000, templates=["fanin", "multisink", "diamond", "line"]),
+                      # several distinct objects carrying the same id (ids are the caller's business)
+                      e1(3000, kinds=["rprs", "rrs", "filter", "buffer_fifo", "buffer_lifo", "bufferstore_fifo", "fleet"], profiles=["hoarder", "cancel_storm"], payload="same_ids")],
+            "thorough": [e2(9, 16), e1(240000, kinds=ALL_KINDS, profiles=["hoarder", "mixed", "cancel_storm"]), e5(40000), e3(20000),
+                         e1(30000, kinds=["rprs", "rrs", "filter", "buffer_fifo", "buffer_lifo", "bufferstore_fifo", "fleet"], profiles=["hoarder", "cancel_storm"], payload="same_ids")]},
     "C07": {"quick": [e2(6, 4, illformed=True), e1(12000, kinds=ALL_KINDS, illformed=0.08)],
             "thorough": [e2(8, 16, illformed=True), e1(160000, kinds=ALL_KINDS, illformed=0.08)]},
     "C03": {"quick": [e3(8000)], "thorough": [e3(80000)]},
